@@ -61,7 +61,7 @@ def kill_group(p):
         pass
 
 
-def run_shards(prop, tier, seed, plan, only=None):
+def run_shards(prop, tier, seed, plan, only=None, only_hashseed=None):
     nshards = 1 if only is not None else min(plan.get("shards", NPROC), NPROC * 4)
     par = min(plan.get("parallel", NPROC), NPROC)
     watchdog = plan.get("watchdog_s", 1800)
@@ -72,6 +72,8 @@ def run_shards(prop, tier, seed, plan, only=None):
     shard_status = {}
     hashseeds = {}
     fixed = plan.get("hashseeds")
+    if only is not None and only_hashseed is not None:
+        fixed = [only_hashseed]  # replay under the PYTHONHASHSEED of the shard that found the case
     try:
         while pending or running:
             while pending and len(running) < par:
@@ -207,7 +209,7 @@ def write_evidence(prop, tier, seed, P, m, hashseeds, wall, known_hit, n_new, in
     return path
 
 
-def check(prop, tier, only=None, quiet=False):
+def check(prop, tier, only=None, quiet=False, only_hashseed=None):
     t0 = time.monotonic()
     seed = int(os.environ.get("VERIF_SEED", "0") or 0)
     if not ensure_deps():
@@ -220,7 +222,7 @@ def check(prop, tier, only=None, quiet=False):
         os.remove(ev_path)
     if only is None:
         shutil.rmtree(os.path.join(REPLAY_DIR, prop), ignore_errors=True)
-    records, status, hashseeds = run_shards(prop, tier, seed, plan, only=only)
+    records, status, hashseeds = run_shards(prop, tier, seed, plan, only=only, only_hashseed=only_hashseed)
     wall = time.monotonic() - t0
     m = merge(prop, tier, seed, P, records, hashseeds, wall)
     known = F.load()
@@ -273,7 +275,8 @@ def replay(path):
         info = json.load(f)
     os.environ["VERIF_SEED"] = str(info["seed"])
     print(f"replaying {info['prop']} tier={info['tier']} seed={info['seed']} index={info['index']}")
-    return check(info["prop"], info["tier"], only=info["index"])
+    hs = info.get("hashseed")
+    return check(info["prop"], info["tier"], only=info["index"], only_hashseed=hs if str(hs).isdigit() else None)
 
 
 def main(argv):
